@@ -914,6 +914,12 @@ def jobs(tier, seed):
     for r, c in ([(2, 2), (2, 3), (3, 2), (4, 1), (3, 3)] if q else [(1, 3), (2, 2), (2, 3), (3, 2), (4, 1), (5, 2), (3, 3), (3, 4), (4, 3), (4, 4)]):
         for cell in itertools.product(range(r), range(c)):
             out.append(dict(h="neighbors", r=r, c=c, cell=list(cell)))
+    # larger and oblong grids: corners, edge midpoints, interior (a neighbour query reads only the four connections around its cell)
+    for r, c in ([(5, 9), (9, 5), (12, 12)] if q else [(5, 9), (9, 5), (12, 12), (2, 15), (15, 2), (15, 15)]):
+        for cell in sorted({(0, 0), (0, c - 1), (r - 1, 0), (r - 1, c - 1), (r // 2, c // 2), (0, c // 2), (r - 1, c // 2), (r // 2, 0), (r // 2, c - 1), (min(r, c) - 1, min(r, c) - 1),
+                            (min(r - 1, c), min(c - 1, r))}):
+            if 0 <= cell[0] < r and 0 <= cell[1] < c:
+                out.append(dict(h="neighbors", r=r, c=c, cell=list(cell)))
     for r, c in ([(2, 2), (2, 3), (3, 2), (3, 3)] if q else [(2, 2), (2, 3), (3, 2), (4, 2), (3, 3), (3, 4)]):
         cells = list(itertools.product(range(r), range(c)))
         if q and (r, c) == (3, 3):
